@@ -123,6 +123,13 @@ SURFACE_STMTS = [
     ("stream", "{ std::ostringstream o; o << a; std::printf(\"%s\\n\", o.str().c_str()); }"),
     ("chrono", "{ std::chrono::duration<R> d = au::seconds(R(5)); PR(d.count()); }"), ("const", "P(au::SPEED_OF_LIGHT.template as<R>(au::meters / au::second));"),
     ("spaceship", "PB((a <=> b) > 0);"),
+    # mixed std::chrono / Quantity operators, foreign type on either side (C++20 rewrites == / != candidates, earlier standards do not)
+    ("chrono-ne-left", "PB(std::chrono::milliseconds(1500) != au::seconds(R(1)));"), ("chrono-ne-right", "PB(au::seconds(R(1)) != std::chrono::milliseconds(1500));"),
+    ("chrono-eq-left", "PB(std::chrono::milliseconds(1000) == au::seconds(R(1)));"), ("chrono-eq-right", "PB(au::seconds(R(1)) == std::chrono::milliseconds(1000));"),
+    ("chrono-lt-left", "PB(std::chrono::milliseconds(1500) < au::seconds(R(1)));"), ("chrono-lt-right", "PB(au::seconds(R(1)) < std::chrono::milliseconds(1500));"),
+    ("chrono-le-left", "PB(std::chrono::milliseconds(1000) <= au::seconds(R(1)));"), ("chrono-ge-right", "PB(au::seconds(R(1)) >= std::chrono::milliseconds(1000));"),
+    ("chrono-gt-left", "PB(std::chrono::duration<double>(1.5) > au::seconds(R(1)));"), ("chrono-add-left", "P(std::chrono::milliseconds(1500) + au::seconds(R(1)));"),
+    ("chrono-sub-right", "P(au::seconds(R(1)) - std::chrono::milliseconds(1500));"),
     # every label shape, odr-used and linked (C++14 needs the out-of-class definitions of the constexpr label members)
     ("label-inv-product", "PL(au::pow<-1>(au::Meters{} * au::Seconds{}));"), ("label-quotient", "PL(au::Meters{} / au::Seconds{});"),
     ("label-product", "PL(au::Meters{} * au::Seconds{});"), ("label-pow", "PL(au::pow<3>(au::Meters{}));"), ("label-negpow", "PL(au::pow<-2>(au::Seconds{}));"),
